@@ -60,21 +60,31 @@ func (p *plain) Run(ctx context.Context, r controller.Runtime, _ *zap.Logger) er
 
 // qprobe: a queue controller with A as primary input.
 type qprobe struct {
-	last map[string]obs
-	n    int
+	last       map[string]obs
+	lastMapped map[string]uint64 // version of B(id) seen by MapInput
+	n          int
 }
 
 func (q *qprobe) Name() string { return "queue" }
 func (q *qprobe) Settings() controller.QSettings {
-	return controller.QSettings{Inputs: []controller.Input{{Namespace: tres.NS, Type: tres.TypeA, Kind: controller.InputQPrimary}}}
+	return controller.QSettings{Inputs: []controller.Input{
+		{Namespace: tres.NS, Type: tres.TypeA, Kind: controller.InputQPrimary},
+		{Namespace: tres.NS, Type: tres.TypeB, Kind: controller.InputQMapped},
+	}}
 }
 func (q *qprobe) Reconcile(ctx context.Context, _ *zap.Logger, r controller.QRuntime, p resource.Pointer) error {
 	q.n++
 	q.last[p.ID()] = observe(ctx, r, p.ID())
 	return nil
 }
-func (q *qprobe) MapInput(context.Context, *zap.Logger, controller.QRuntime, controller.ReducedResourceMetadata) ([]resource.Pointer, error) {
-	return nil, nil
+func (q *qprobe) MapInput(ctx context.Context, _ *zap.Logger, r controller.QRuntime, p controller.ReducedResourceMetadata) ([]resource.Pointer, error) {
+	if b, err := r.Get(ctx, resource.NewMetadata(tres.NS, tres.TypeB, p.ID(), resource.VersionUndefined)); err == nil {
+		q.lastMapped[p.ID()] = b.Metadata().Version().Value()
+	} else {
+		q.lastMapped[p.ID()] = 0
+	}
+	// a change of B(id) concerns the primary item A(id)
+	return []resource.Pointer{resource.NewMetadata(tres.NS, tres.TypeA, p.ID(), resource.VersionUndefined)}, nil
 }
 
 func current(ctx context.Context, st state.State, id string) obs {
@@ -85,10 +95,15 @@ func current(ctx context.Context, st state.State, id string) obs {
 	return obs{true, r.Metadata().Version().Value(), r.Metadata().Phase()}
 }
 
-func write(ctx context.Context, st state.State) {
+// write performs one external write: on the primary/plain input kind A, or (if allowed) on the mapped kind B.
+func write(ctx context.Context, st state.State, mappedAllowed bool) {
 	id := ids[verif.Choose("id", 2)]
 	p := resource.NewMetadata(tres.NS, tres.TypeA, id, resource.VersionUndefined)
-	switch verif.Choose("write", 4) {
+	n := 4
+	if mappedAllowed {
+		n = 6
+	}
+	switch verif.Choose("write", n) {
 	case 0:
 		st.Create(ctx, tres.NewA(tres.NS, id, "v")) //nolint:errcheck
 	case 1:
@@ -100,55 +115,80 @@ func write(ctx context.Context, st state.State) {
 		st.Teardown(ctx, p) //nolint:errcheck
 	case 3:
 		st.Destroy(ctx, p) //nolint:errcheck
+	case 4:
+		st.Create(ctx, tres.NewB(tres.NS, id, "m")) //nolint:errcheck
+	case 5:
+		if r, err := st.Get(ctx, resource.NewMetadata(tres.NS, tres.TypeB, id, resource.VersionUndefined)); err == nil {
+			r.(*tres.B).TypedSpec().N++
+			st.Update(ctx, r) //nolint:errcheck
+		}
 	}
 }
 
-// H_Assembled: the real Runtime with a plain controller (input by kind) and a queue controller on the
-// in-memory state; after any history of <=2 (quick) / <=3 (thorough) writes, issued before or after
-// start and with or without settling in between, the last state each controller read is the current state.
-func H_Assembled() {
-	nw := 2
-	if verif.Tier() == "thorough" {
-		nw = 3
-	}
+type variant struct {
+	cached, byID, destroyReady, mapped bool
+}
+
+func assembled(v variant, nBeforeMax, nw int) {
 	ctx, cancel := context.WithCancel(context.Background())
 	defer cancel()
 	st := state.WrapCore(namespaced.NewState(inmem.Build))
-	rt, err := runtime.NewRuntime(st, zap.NewNop(), options.WithMetrics(false))
+	ropts := []options.Option{options.WithMetrics(false)}
+	if v.cached {
+		ropts = append(ropts, options.WithCachedResource(tres.NS, tres.TypeA))
+	}
+	rt, err := runtime.NewRuntime(st, zap.NewNop(), ropts...)
 	verif.Assert(err == nil, "runtime created")
-	byID := verif.Choose("plainInputByID", 2) == 1
 	in := controller.Input{Namespace: tres.NS, Type: tres.TypeA, Kind: controller.InputWeak}
-	if byID {
+	if v.destroyReady {
+		in.Kind = controller.InputDestroyReady
+	}
+	if v.byID {
 		in.ID = optional.Some("a")
 	}
 	pc := &plain{name: "plain", inputs: []controller.Input{in}, last: map[string]obs{}}
-	qc := &qprobe{last: map[string]obs{}}
+	qc := &qprobe{last: map[string]obs{}, lastMapped: map[string]uint64{}}
 	verif.Assert(rt.RegisterController(pc) == nil, "plain controller registered")
 	verif.Assert(rt.RegisterQController(qc) == nil, "queue controller registered")
-	// writes before start
-	nBefore := verif.Choose("writesBeforeStart", 2)
+	nBefore := verif.Choose("writesBeforeStart", nBeforeMax+1)
 	for i := 0; i < nBefore; i++ {
-		write(ctx, st)
+		write(ctx, st, false)
 	}
 	go rt.Run(ctx) //nolint:errcheck
+	up := false // the runtime has settled at least once since start (its watches are established)
 	n := verif.Choose("writes", nw+1)
 	for i := 0; i < n; i++ {
 		if verif.Choose("settle", 2) == 1 {
 			verif.Quiesce()
+			up = true
 		}
-		write(ctx, st)
+		// a mapped input is only notified for changes after its watch is established
+		write(ctx, st, v.mapped && up)
 	}
 	verif.Quiesce() // the system goes quiet
 	for _, id := range ids {
 		cur := current(ctx, st, id)
-		if !byID || id == "a" {
-			verif.Assert(pc.last[id] == cur, "plain controller: the last state it read for its input is the current state (no lost wake-up)")
+		if !v.byID || id == "a" {
+			if !v.destroyReady {
+				verif.Assert(pc.last[id] == cur, "plain controller: the last state it read for its input is the current state (no lost wake-up)")
+			} else if r, gerr := st.Get(ctx, resource.NewMetadata(tres.NS, tres.TypeA, id, resource.VersionUndefined)); gerr == nil && r.Metadata().Phase() == resource.PhaseTearingDown && r.Metadata().Finalizers().Empty() {
+				verif.Assert(pc.last[id] == cur, "destroy-ready input: every resource currently tearing down without finalizers has been observed in that state")
+				verif.Cover("destroy-ready observed")
+			}
 		}
-		// a queue controller is reconciled for every change and for every pre-existing primary at start-up
 		if cur.found {
 			verif.Assert(qc.last[id] == cur, "queue controller: the last state it read for the item is the current state")
 		} else if lo, seen := qc.last[id]; seen {
 			verif.Assert(!lo.found, "queue controller: a destroyed item was last seen as gone")
+		}
+		if b, berr := st.Get(ctx, resource.NewMetadata(tres.NS, tres.TypeB, id, resource.VersionUndefined)); berr == nil {
+			verif.Assert(qc.lastMapped[id] == b.Metadata().Version().Value(), "a mapped input change reaches the mapper with the current state")
+			verif.Cover("mapped input seen")
+		}
+		if v.cached {
+			cr, cerr := rt.CachedState().Get(ctx, resource.NewMetadata(tres.NS, tres.TypeA, id, resource.VersionUndefined))
+			verif.Assert((cerr == nil) == cur.found && (cerr != nil || cr.Metadata().Version().Value() == cur.version), "when the system is quiet cached reads equal uncached reads")
+			verif.Cover("cached kind")
 		}
 	}
 	if nBefore > 0 {
@@ -157,4 +197,44 @@ func H_Assembled() {
 	if n > 0 {
 		verif.Cover("write after start")
 	}
+}
+
+// H_Assembled: the real Runtime with a plain controller (weak input by kind or by ID) and a queue
+// controller on the in-memory state; after any history of writes issued before or after start, with
+// or without settling in between, the last state each controller read is the current state.
+func H_Assembled() {
+	nw := 2
+	if verif.Tier() == "thorough" {
+		nw = 3
+	}
+	assembled(variant{byID: verif.Choose("plainInputByID", 2) == 1}, 1, nw)
+}
+
+// H_AssembledKinds: the same with a cached input kind, a destroy-ready input and a mapped input.
+func H_AssembledKinds() {
+	nw := 1
+	if verif.Tier() == "thorough" {
+		nw = 2
+	}
+	v := variant{}
+	switch verif.Choose("variant", 3) {
+	case 0:
+		v.cached = true
+	case 1:
+		v.destroyReady = true
+	case 2:
+		v.mapped = true
+	}
+	nBefore := 0
+	if v.destroyReady || v.cached {
+		nBefore = 1
+	}
+	assembled(v, nBefore, nw+b2i(v.mapped || v.destroyReady))
+}
+
+func b2i(b bool) int {
+	if b {
+		return 1
+	}
+	return 0
 }
